@@ -15,14 +15,18 @@ import (
 	"encoding/json"
 	"fmt"
 	"io"
+	"io/fs"
 	"math/rand"
 	"net"
 	"os"
 	"sort"
 	"sync"
 	"sync/atomic"
+	"syscall"
 	"testing"
 	"time"
+
+	"github.com/absfs/absfs"
 )
 
 // ---------------------------------------------------------------- schema-driven XDR interpreter
@@ -792,6 +796,248 @@ func vfrExhaustBuckets(e *vfEnv, ip string) {
 	}
 }
 
+// ---------------------------------------------------------------- a backend that fails on demand
+
+// vfrFaultFS is the vfs backend with one injected failure: the k-th backend operation after arm()
+// fails with *os.PathError / *os.LinkError wrapping the chosen errno (what a real file system reports:
+// EBUSY, ELOOP, ENOTEMPTY, EINTR, ESTALE, ...). Everything else goes to vfs unchanged.
+type vfrFaultFS struct {
+	*vfsFS
+	mu    sync.Mutex
+	at    int
+	n     int
+	errno syscall.Errno
+	fired string
+}
+
+func (f *vfrFaultFS) arm(k int, e syscall.Errno) {
+	f.mu.Lock()
+	f.at, f.n, f.errno, f.fired = k, 0, e, ""
+	f.mu.Unlock()
+}
+
+func (f *vfrFaultFS) disarm() string {
+	f.mu.Lock()
+	defer f.mu.Unlock()
+	f.at = 0
+	return f.fired
+}
+
+func (f *vfrFaultFS) hit(op, p, p2 string) error {
+	f.mu.Lock()
+	defer f.mu.Unlock()
+	if f.at == 0 {
+		return nil
+	}
+	f.n++
+	if f.n != f.at {
+		return nil
+	}
+	f.fired = op
+	if p2 != "" {
+		return &os.LinkError{Op: op, Old: p, New: p2, Err: f.errno}
+	}
+	return &os.PathError{Op: op, Path: p, Err: f.errno}
+}
+
+func (f *vfrFaultFS) OpenFile(name string, flag int, perm os.FileMode) (absfs.File, error) {
+	if err := f.hit("open", name, ""); err != nil {
+		return nil, err
+	}
+	fl, err := f.vfsFS.OpenFile(name, flag, perm)
+	if err != nil {
+		return nil, err
+	}
+	return &vfrFaultFile{File: fl, fs: f, name: name}, nil
+}
+func (f *vfrFaultFS) Open(name string) (absfs.File, error) { return f.OpenFile(name, os.O_RDONLY, 0) }
+func (f *vfrFaultFS) Create(name string) (absfs.File, error) {
+	return f.OpenFile(name, os.O_RDWR|os.O_CREATE|os.O_TRUNC, 0666)
+}
+func (f *vfrFaultFS) Mkdir(name string, perm os.FileMode) error {
+	if err := f.hit("mkdir", name, ""); err != nil {
+		return err
+	}
+	return f.vfsFS.Mkdir(name, perm)
+}
+func (f *vfrFaultFS) MkdirAll(name string, perm os.FileMode) error {
+	if err := f.hit("mkdir", name, ""); err != nil {
+		return err
+	}
+	return f.vfsFS.MkdirAll(name, perm)
+}
+func (f *vfrFaultFS) Remove(name string) error {
+	if err := f.hit("remove", name, ""); err != nil {
+		return err
+	}
+	return f.vfsFS.Remove(name)
+}
+func (f *vfrFaultFS) RemoveAll(name string) error {
+	if err := f.hit("remove", name, ""); err != nil {
+		return err
+	}
+	return f.vfsFS.RemoveAll(name)
+}
+func (f *vfrFaultFS) Rename(o, n string) error {
+	if err := f.hit("rename", o, n); err != nil {
+		return err
+	}
+	return f.vfsFS.Rename(o, n)
+}
+func (f *vfrFaultFS) Stat(name string) (os.FileInfo, error) {
+	if err := f.hit("stat", name, ""); err != nil {
+		return nil, err
+	}
+	return f.vfsFS.Stat(name)
+}
+func (f *vfrFaultFS) Lstat(name string) (os.FileInfo, error) {
+	if err := f.hit("lstat", name, ""); err != nil {
+		return nil, err
+	}
+	return f.vfsFS.Lstat(name)
+}
+func (f *vfrFaultFS) Chmod(name string, m os.FileMode) error {
+	if err := f.hit("chmod", name, ""); err != nil {
+		return err
+	}
+	return f.vfsFS.Chmod(name, m)
+}
+func (f *vfrFaultFS) Chtimes(name string, a, m time.Time) error {
+	if err := f.hit("chtimes", name, ""); err != nil {
+		return err
+	}
+	return f.vfsFS.Chtimes(name, a, m)
+}
+func (f *vfrFaultFS) Chown(name string, u, g int) error {
+	if err := f.hit("chown", name, ""); err != nil {
+		return err
+	}
+	return f.vfsFS.Chown(name, u, g)
+}
+func (f *vfrFaultFS) Lchown(name string, u, g int) error {
+	if err := f.hit("lchown", name, ""); err != nil {
+		return err
+	}
+	return f.vfsFS.Lchown(name, u, g)
+}
+func (f *vfrFaultFS) ReadDir(name string) ([]fs.DirEntry, error) {
+	if err := f.hit("readdir", name, ""); err != nil {
+		return nil, err
+	}
+	return f.vfsFS.ReadDir(name)
+}
+func (f *vfrFaultFS) ReadFile(name string) ([]byte, error) {
+	if err := f.hit("read", name, ""); err != nil {
+		return nil, err
+	}
+	return f.vfsFS.ReadFile(name)
+}
+func (f *vfrFaultFS) Truncate(name string, size int64) error {
+	if err := f.hit("truncate", name, ""); err != nil {
+		return err
+	}
+	return f.vfsFS.Truncate(name, size)
+}
+func (f *vfrFaultFS) Readlink(name string) (string, error) {
+	if err := f.hit("readlink", name, ""); err != nil {
+		return "", err
+	}
+	return f.vfsFS.Readlink(name)
+}
+func (f *vfrFaultFS) Symlink(o, n string) error {
+	if err := f.hit("symlink", o, n); err != nil {
+		return err
+	}
+	return f.vfsFS.Symlink(o, n)
+}
+
+type vfrFaultFile struct {
+	absfs.File
+	fs   *vfrFaultFS
+	name string
+}
+
+func (x *vfrFaultFile) Read(b []byte) (int, error) {
+	if err := x.fs.hit("read", x.name, ""); err != nil {
+		return 0, err
+	}
+	return x.File.Read(b)
+}
+func (x *vfrFaultFile) ReadAt(b []byte, off int64) (int, error) {
+	if err := x.fs.hit("read", x.name, ""); err != nil {
+		return 0, err
+	}
+	return x.File.ReadAt(b, off)
+}
+func (x *vfrFaultFile) Write(b []byte) (int, error) {
+	if err := x.fs.hit("write", x.name, ""); err != nil {
+		return 0, err
+	}
+	return x.File.Write(b)
+}
+func (x *vfrFaultFile) WriteAt(b []byte, off int64) (int, error) {
+	if err := x.fs.hit("write", x.name, ""); err != nil {
+		return 0, err
+	}
+	return x.File.WriteAt(b, off)
+}
+func (x *vfrFaultFile) Sync() error {
+	if err := x.fs.hit("sync", x.name, ""); err != nil {
+		return err
+	}
+	return x.File.Sync()
+}
+func (x *vfrFaultFile) Stat() (os.FileInfo, error) {
+	if err := x.fs.hit("stat", x.name, ""); err != nil {
+		return nil, err
+	}
+	return x.File.Stat()
+}
+func (x *vfrFaultFile) Truncate(size int64) error {
+	if err := x.fs.hit("truncate", x.name, ""); err != nil {
+		return err
+	}
+	return x.File.Truncate(size)
+}
+func (x *vfrFaultFile) Readdir(n int) ([]os.FileInfo, error) {
+	if err := x.fs.hit("readdir", x.name, ""); err != nil {
+		return nil, err
+	}
+	return x.File.Readdir(n)
+}
+
+// errnos a backend may report; most have no case of their own in an errno -> nfsstat3 mapping
+var vfrErrnos = []syscall.Errno{syscall.EBUSY, syscall.ELOOP, syscall.ENOTEMPTY, syscall.EINTR, syscall.ENOMEM, syscall.ETXTBSY,
+	syscall.ENOSYS, syscall.EXDEV, syscall.EMLINK, syscall.ENOSPC, syscall.EDQUOT, syscall.EROFS, syscall.ESTALE, syscall.EIO,
+	syscall.EAGAIN, syscall.ENFILE, syscall.EMFILE, syscall.E2BIG, syscall.ERANGE, syscall.EFBIG, syscall.ENODEV, syscall.ENXIO,
+	syscall.EOPNOTSUPP, syscall.ENAMETOOLONG, syscall.EACCES, syscall.EPERM, syscall.EEXIST, syscall.ENOENT, syscall.ENOTDIR,
+	syscall.EISDIR, syscall.EINVAL, syscall.Errno(133), syscall.Errno(10008)}
+
+// vfrFaultCases: one call per procedure that reaches the backend, on objects that exist (fresh names per i).
+func vfrFaultCases(h vfrHandles, i int) []vfrCase {
+	n := func(proc uint32, note string, args []byte) vfrCase {
+		return vfrCase{Prog: NFS_PROGRAM, Vers: NFS_V3, Proc: proc, Args: args, Class: "good", Note: note, Cred: vfRoot}
+	}
+	sfx := fmt.Sprintf("q%d", i)
+	var zero8 [8]byte
+	mode := vfSattr{Mode: u32p(0640)}
+	var mnt bytes.Buffer
+	xdrEncodeString(&mnt, "/d")
+	return []vfrCase{
+		n(1, "getattr", vfArgsFH(h.file)), n(2, "setattr mode", vfArgsSetattr(h.file, mode, nil)),
+		n(2, "setattr size", vfArgsSetattr(h.file, vfSattr{Size: u64p(uint64(40 + i%7))}, nil)),
+		n(3, "lookup", vfArgsDirOp(h.dir, "a")), n(3, "lookup missing", vfArgsDirOp(h.dir, "no"+sfx)), n(4, "access", vfArgsAccess(h.file, 0x3f)),
+		n(5, "readlink", vfArgsFH(h.link)), n(6, "read", vfArgsRead(h.file, 0, 20)), n(7, "write", vfArgsWrite(h.file, 3, 2, []byte("fault"))),
+		n(8, "create", vfArgsCreate(h.dir, "c"+sfx, 0, mode, zero8)), n(8, "create exclusive", vfArgsCreate(h.dir, "x"+sfx, 2, vfSattr{}, [8]byte{9})),
+		n(9, "mkdir", vfArgsMkdir(h.dir, "k"+sfx, mode)), n(10, "symlink", vfArgsSymlink(h.dir, "s"+sfx, vfSattr{}, "a")),
+		n(12, "remove", vfArgsDirOp(h.dir, "c"+sfx)), n(13, "rmdir", vfArgsDirOp(h.dir, "k"+sfx)), n(13, "rmdir non-empty", vfArgsDirOp(h.root, "d")),
+		n(14, "rename", vfArgsRename(h.dir, "s"+sfx, h.dir, "t"+sfx)), n(14, "rename onto non-empty dir", vfArgsRename(h.root, "e", h.root, "d")),
+		n(16, "readdir", vfArgsReaddir(h.dir, 0, zero8, 4096)), n(17, "readdirplus", vfArgsReaddirplus(h.dir, 0, zero8, 4096, 8192)),
+		n(18, "fsstat", vfArgsFH(h.root)), n(19, "fsinfo", vfArgsFH(h.root)), n(20, "pathconf", vfArgsFH(h.file)), n(21, "commit", vfArgsCommit(h.file, 0, 0)),
+		{Prog: MOUNT_PROGRAM, Vers: 3, Proc: 1, Args: mnt.Bytes(), Class: "good", Note: "mnt /d", Cred: vfRoot},
+	}
+}
+
 func TestVF_ReplyShape(t *testing.T) {
 	seed := vfSeed()
 	sch := vfrLoadSchema(t)
@@ -849,6 +1095,57 @@ func TestVF_ReplyShape(t *testing.T) {
 			}
 			e.Close()
 		}
+	}
+
+	// ---- a backend that fails: every procedure, the k-th backend operation of the request fails with each errno
+	{
+		inner := vfNewFS()
+		vfrPopulate(inner)
+		// objects that make the plain vfs backend itself answer with unusual errnos: symlink loops
+		inner.vfPoke("/la", "L", nil, "lb", 0777)
+		inner.vfPoke("/lb", "L", nil, "la", 0777)
+		ff := &vfrFaultFS{vfsFS: inner}
+		e := vfNewEnv(t, ff, ExportOptions{})
+		h := vfrGetHandles(t, e)
+		loop := vfrLookupHandle(t, e, h.root, "la")
+		tr.Emit(M{"ev": "reset", "state": "faulty", "round": 0})
+		var zero8 [8]byte
+		for _, c := range []vfrCase{
+			{Prog: NFS_PROGRAM, Vers: 3, Proc: 6, Args: vfArgsRead(loop, 0, 10), Class: "good", Note: "read through a symlink loop", Cred: vfRoot},
+			{Prog: NFS_PROGRAM, Vers: 3, Proc: 7, Args: vfArgsWrite(loop, 0, 2, []byte("z")), Class: "good", Note: "write through a symlink loop", Cred: vfRoot},
+			{Prog: NFS_PROGRAM, Vers: 3, Proc: 2, Args: vfArgsSetattr(loop, vfSattr{Size: u64p(1)}, nil), Class: "good", Note: "truncate through a symlink loop", Cred: vfRoot},
+			{Prog: NFS_PROGRAM, Vers: 3, Proc: 2, Args: vfArgsSetattr(loop, vfSattr{Mode: u32p(0600)}, nil), Class: "good", Note: "chmod through a symlink loop", Cred: vfRoot},
+			{Prog: NFS_PROGRAM, Vers: 3, Proc: 16, Args: vfArgsReaddir(loop, 0, zero8, 4096), Class: "good", Note: "readdir of a symlink loop", Cred: vfRoot},
+			{Prog: NFS_PROGRAM, Vers: 3, Proc: 13, Args: vfArgsDirOp(h.root, "la"), Class: "good", Note: "rmdir of a symlink loop", Cred: vfRoot},
+			{Prog: NFS_PROGRAM, Vers: 3, Proc: 14, Args: vfArgsRename(h.root, "d", h.dir, "sub"), Class: "good", Note: "rename into own subtree", Cred: vfRoot},
+			{Prog: NFS_PROGRAM, Vers: 3, Proc: 14, Args: vfArgsRename(h.root, "e", h.root, "d"), Class: "good", Note: "rename onto a non-empty directory", Cred: vfRoot},
+			{Prog: NFS_PROGRAM, Vers: 3, Proc: 12, Args: vfArgsDirOp(h.root, "d"), Class: "good", Note: "remove of a non-empty directory", Cred: vfRoot},
+		} {
+			c := c
+			raw := e.Call(c.Prog, c.Vers, c.Proc, c.Args, c.Cred)
+			emit(vfrLine(sch, "faulty", "handler", &c, raw.Xid, raw.Wire, raw.Err == nil && raw.Reply != nil, raw.Elapsed))
+		}
+		depth := vfEnvInt("VF_FAULT_DEPTH", 3)
+		i := 0
+		for _, en := range vfrErrnos {
+			for k := 1; k <= depth; k++ {
+				i++
+				for _, c := range vfrFaultCases(h, i) {
+					c := c
+					ff.arm(k, en)
+					raw := e.Call(c.Prog, c.Vers, c.Proc, c.Args, c.Cred)
+					fired := ff.disarm()
+					c.Note = fmt.Sprintf("%s: backend operation %d (%s) fails with errno %d", c.Note, k, fired, int(en))
+					line := vfrLine(sch, "faulty", "handler", &c, raw.Xid, raw.Wire, raw.Err == nil && raw.Reply != nil, raw.Elapsed)
+					line["fired"] = fired != ""
+					emit(line)
+					if fired != "" && len(samples) < 6 && i%11 == 0 {
+						samples = append(samples, line)
+					}
+				}
+			}
+		}
+		e.Close()
 	}
 
 	// ---- over real TCP with record marking: XID echo on the wire, the connection loop's own refusal
